@@ -721,3 +721,77 @@ def translate_reply_builders():
         out.append("def %s %s: Bytes :=\n%s\n" % (name, "".join("(%s : %s) " % (p, lt[t]) for p, t in params), body))
     out.append("end Mimic.Extracted.PacketsCode")
     return "\n".join(out) + "\n"
+
+
+# ----------------------------------------------------------------------------- the catalog-routing decision of session.py
+def translate_info_schema_decision():
+    """Session._info_schema_middleware: the comprehension that resolves unqualified tables and the all(...) test.
+    → Lean: info_schema_intercepts (found : List String) (database : Option String) (catalog : List String) : Bool"""
+    from mysql_mimic import session as S
+    tree = ast.parse(inspect.getsource(S))
+    f = None
+    for n in ast.walk(tree):
+        if isinstance(n, ast.AsyncFunctionDef) and n.name == "_info_schema_middleware":
+            f = n
+    if f is None:
+        raise Untranslatable("_info_schema_middleware not found")
+    body = [s for s in f.body if not (isinstance(s, ast.Expr) and isinstance(s.value, ast.Constant))]
+    if len(body) != 3:
+        raise Untranslatable("_info_schema_middleware: expected assignment, if, return; got %d statements" % len(body))
+    asg, cond, ret = body
+    # dbs = [<or-chain over db, self.database, ""> for db in find_dbs(q.expression)]
+    if not (isinstance(asg, ast.Assign) and isinstance(asg.value, ast.ListComp) and len(asg.value.generators) == 1
+            and not asg.value.generators[0].ifs and ast.unparse(asg.value.generators[0].iter) == "find_dbs(q.expression)"):
+        raise Untranslatable("first statement is not `dbs = [... for db in find_dbs(q.expression)]`")
+    var = asg.value.generators[0].target.id
+    lst = asg.targets[0].id
+
+    def strexpr(n):
+        """string-valued expression → Lean term of type String"""
+        if isinstance(n, ast.Name) and n.id == var:
+            return var
+        if isinstance(n, ast.Constant) and isinstance(n.value, str):
+            return lean_string(n.value)
+        if isinstance(n, ast.Attribute) and ast.unparse(n) == "self.database":
+            return "(database.getD \"\")"          # None and "" are both falsy
+        if isinstance(n, ast.BoolOp) and isinstance(n.op, ast.Or):
+            parts = [strexpr(v) for v in n.values]
+            out = parts[-1]
+            for p in reversed(parts[:-1]):
+                out = "(if %s ≠ \"\" then %s else %s)" % (p, p, out)
+            return out
+        if isinstance(n, ast.Call) and isinstance(n.func, ast.Attribute) and n.func.attr == "lower" and not n.args:
+            return "(Mimic.Py.lower %s)" % strexpr(n.func.value)
+        raise Untranslatable("string expression " + ast.unparse(n))
+
+    elt = strexpr(asg.value.elt)
+    # if dbs and all(<test> for db in dbs): return await self._query_info_schema(q.expression)
+    if not (isinstance(cond, ast.If) and not cond.orelse and isinstance(cond.test, ast.BoolOp) and isinstance(cond.test.op, ast.And)
+            and len(cond.test.values) == 2 and isinstance(cond.test.values[0], ast.Name) and cond.test.values[0].id == lst):
+        raise Untranslatable("second statement is not `if dbs and all(...)`")
+    allc = cond.test.values[1]
+    if not (isinstance(allc, ast.Call) and isinstance(allc.func, ast.Name) and allc.func.id == "all" and isinstance(allc.args[0], ast.GeneratorExp)
+            and ast.unparse(allc.args[0].generators[0].iter) == lst):
+        raise Untranslatable("second conjunct is not all(... for db in dbs)")
+    v2 = allc.args[0].generators[0].target.id
+    t = allc.args[0].elt
+    if not (isinstance(t, ast.Compare) and len(t.ops) == 1 and isinstance(t.ops[0], ast.In) and ast.unparse(t.comparators[0]) == "INFO_SCHEMA"):
+        raise Untranslatable("membership test is not `... in INFO_SCHEMA`")
+    save = var
+    var = v2
+    member = strexpr(t.left)
+    var = save
+    if "_query_info_schema" not in ast.unparse(cond.body[0]) or "q.next()" not in ast.unparse(ret):
+        raise Untranslatable("branches are not _query_info_schema / q.next()")
+    out = ["-- GENERATED by harness/extract.py (harness/pytrans.py) from /repo/mysql_mimic/session.py — do not edit",
+           "import Mimic.Py", "namespace Mimic.Extracted.DispatchCode", "",
+           "/-- `_info_schema_middleware`: `found` = find_dbs(expression) (\"\" for an unqualified table) -/",
+           "def info_schema_intercepts (found : List String) (database : Option String) (catalog : List String) : Bool :=",
+           "  let %s := found.map (fun %s => %s)" % (lst, save, elt),
+           "  (!%s.isEmpty) && %s.all (fun %s => catalog.contains %s)" % (lst, lst, v2, member),
+           "", "end Mimic.Extracted.DispatchCode"]
+    return "\n".join(out) + "\n"
+
+
+def lean_string(s):
+    return '"' + s.replace("\\", "\\\\").replace('"', '\\"') + '"'
